@@ -59,6 +59,12 @@ func RunCtxEnd(e *Env) {
 		}
 		cases = append(cases, XCase{Method: m, N: 2, Behaviour: "tarpit-reconnect", Instant: "awaiting-replies", Traffic: "none", Deadline: true})
 	}
+	// a finished streaming correctable that is still enqueueing to a jammed peer, on the same (healthy) node as the call under test
+	for rep := 0; rep < e.Pick(4, 30); rep++ {
+		for _, m := range []string{"RPC", "Uni", "QC", "Async"} {
+			cases = append(cases, XCase{Method: m, N: 2, Behaviour: "slow", Instant: []string{"awaiting-replies", "before-call"}[rep%2], Traffic: "finished-stream-call-enqueueing-to-jammed-peer", Deadline: rep%2 == 0})
+		}
+	}
 	var mu sync.Mutex
 	hangs := map[string]int{}    // signature -> count
 	skipKey := map[string]bool{} // (behaviour|instant|traffic|class) that already produced a confirmed hang twice
@@ -113,7 +119,8 @@ func callClass(m string) string {
 
 func runCtxEndCase(e *Env, idx int, c XCase) (hangSig string) {
 	R := e.R
-	needProxy := c.Behaviour == "stalled" || c.Behaviour == "refuse" || c.Behaviour == "tarpit-reconnect"
+	jam := c.Traffic == "finished-stream-call-enqueueing-to-jammed-peer"
+	needProxy := c.Behaviour == "stalled" || c.Behaviour == "refuse" || c.Behaviour == "tarpit-reconnect" || jam
 	cl, err := h.NewCluster(h.Options{N: c.N, Block: true, DialTimeout: 500 * time.Millisecond, Proxies: needProxy, SendBuffer: c.Buffer})
 	if err != nil {
 		R.Inconc("cluster: " + err.Error())
@@ -151,7 +158,15 @@ func runCtxEndCase(e *Env, idx int, c XCase) (hangSig string) {
 			}
 		}
 		if hc.Send != nil {
-			hc.Send(hc.Rep(0))
+			k := 1
+			if jam {
+				k = 300
+			}
+			for i := 0; i < k; i++ {
+				if hc.Send(hc.Rep(uint32(i))) != nil {
+					break
+				}
+			}
 			return nil, nil
 		}
 		return hc.Rep(0), nil
@@ -178,6 +193,20 @@ func runCtxEndCase(e *Env, idx int, c XCase) (hangSig string) {
 		pad = 48 << 10
 	}
 	switch c.Traffic {
+	case "finished-stream-call-enqueueing-to-jammed-peer":
+		last := c.N - 1
+		cl.Proxies[last].SetMode(h.Stall)
+		for k := 0; k < 12; k++ {
+			tok := h.NewToken()
+			req := &puppet.Req{Call: tok, Seq: tok, Kind: 8, Pad: make([]byte, 48<<10)}
+			go cl.Node(last).Uni(context.Background(), req, gorums.WithNoSendWaiting())
+		}
+		time.Sleep(30 * time.Millisecond)
+		tok := h.NewToken()
+		req := &puppet.Req{Call: tok, Seq: tok, Kind: 8}
+		cl.QS.Register(&h.CallMon{Token: tok, Orig: req, Decide: func(inv *h.Inv) (bool, int) { return true, 1 }}) // done at the first reply
+		bg = append(bg, h.Go("bg-stream", func() { <-cl.Cfg.CorrStream(context.Background(), req).Done() }))
+		time.Sleep(50 * time.Millisecond)
 	case "stuck-background-call":
 		tok := h.NewToken()
 		req := &puppet.Req{Call: tok, Seq: tok, Kind: 8, Pad: make([]byte, pad)}
